@@ -9,3 +9,8 @@ import QlibcModel.Props.C13
 #print axioms Qlibc.Props.C13.one_critical_section_per_call
 #print axioms Qlibc.Props.C13.certified_call_is_wellLocked_op
 #print axioms Qlibc.Props.C13.macro_skeleton_as_modelled
+#print axioms Qlibc.Props.C13.macro_tree_as_modelled
+#print axioms Qlibc.Props.C13.enter_returns_holding
+#print axioms Qlibc.Props.C13.leave_unlocks_once
+#print axioms Qlibc.Props.C13.macro_tree_shape
+#print axioms Qlibc.Props.C13.all_container_mutexes_recursive
